@@ -2473,4 +2473,115 @@ theorem split_core {f m : Nat} {s sK : State} {a : List UInt8} {j : Nat}
       · cases hc
     · cases hc
 
+/-! ### the statement for two parts, and for any number of parts -/
+
+/-- the run was not cut short by the model: neither the fuel of the interpreter model nor the
+fuel of the scanner model ran out -/
+def Good (r : Res) : Prop := r ≠ .fuel ∧ r ≠ .err scannerFuel
+
+/-- the outcome `P1` of the single call against the outcome `P2` of the last of several calls:
+same result; same interpreter state except that the scanner's line counter and list of
+structured comments are those of the whole input (`l` more lines, `pre` in front), and
+that after an error the interpreter's own list of structured comments is still `d0`, the list
+before the single call (`Execute` appends the scanner's list only when it succeeds) -/
+def SplitRel (d0 : List (String × String)) (P1 P2 : State × Res) : Prop :=
+  ∃ (l : Nat) (pre : List (String × String)),
+    P1 = ({ P2.1 with scanner := ext [] l pre P2.1.scanner,
+                      dsc := if P2.2 = .ok then P2.1.dsc else d0 }, P2.2)
+
+theorem ext_ext (l1 l2 : Nat) (p1 p2 : List (String × String)) (sc : Scanner) :
+    ext [] l1 p1 (ext [] l2 p2 sc) = ext [] (l1 + l2) (p1 ++ p2) sc := by
+  obtain ⟨src, fault, peek, reg, eexec, r, line, col, crSeen, dsc, err⟩ := sc
+  simp [ext, Nat.add_assoc]
+
+theorem SplitRel.trans {d0 d1 : List (String × String)} {P1 P2 P3 : State × Res}
+    (h1 : SplitRel d0 P1 P2) (h2 : SplitRel d1 P2 P3) : SplitRel d0 P1 P3 := by
+  obtain ⟨l1, p1, e1⟩ := h1
+  obtain ⟨l2, p2, e2⟩ := h2
+  refine ⟨l1 + l2, p1 ++ p2, ?_⟩
+  rw [e1, e2]
+  dsimp only
+  rw [ext_ext]
+  by_cases hok : P3.2 = .ok
+  · simp only [hok, if_true]
+  · simp only [hok, if_false]
+
+/-- two-part form of the result -/
+theorem split_two {f m : Nat} {s : State} {a : List UInt8} (hc : (cleanRun f m s a).isSome = true) :
+    (execute f m s a none).2 = .ok ∧
+    (execute f m s a none).1.dsc = s.dsc ++ (execute f m s a none).1.scanner.dsc ∧
+    ∀ (b : List UInt8) (F1 F2 : Nat),
+      Good (execute F1 m s (a ++ b) none).2 →
+      Good (execute F2 m (execute f m s a none).1 b none).2 →
+      execute F1 m s (a ++ b) none =
+        ({ (execute F2 m (execute f m s a none).1 b none).1 with
+            scanner := ext [] (execute f m s a none).1.scanner.line (execute f m s a none).1.scanner.dsc
+              (execute F2 m (execute f m s a none).1 b none).1.scanner,
+            dsc := if (execute F2 m (execute f m s a none).1 b none).2 = .ok
+              then (execute F2 m (execute f m s a none).1 b none).1.dsc else s.dsc },
+         (execute F2 m (execute f m s a none).1 b none).2) := by
+  obtain ⟨⟨sK, j⟩, hc⟩ := Option.isSome_iff_exists.mp hc
+  obtain ⟨k, scX, hw, ha, hb⟩ := split_core hc
+  rw [ha]
+  refine ⟨rfl, rfl, ?_⟩
+  intro b F1 F2 g1 g2
+  exact hb b F1 F2 g1.1 g2.1 g1.2 g2.2
+
+theorem execute_dsc_err (F m : Nat) (s : State) (b : List UInt8)
+    (h : (execute F m s b none).2 ≠ .ok) : (execute F m s b none).1.dsc = s.dsc := by
+  rw [execute_eq] at h ⊢
+  have e := scanRun_dsc F m { s with scanner := fresh b }
+  generalize scanRun F m { s with scanner := fresh b } = p at h e
+  obtain ⟨s1, r⟩ := p
+  dsimp only at e
+  cases r with
+  | ok => exact absurd rfl h
+  | fuel => exact e
+  | err x => cases x <;> first | exact e | exact absurd rfl h
+
+/-- feeding the parts one after the other: the state after the last of them -/
+def endState (f m : Nat) : State → List (List UInt8) → State
+  | s, [] => s
+  | s, a :: rest => endState f m (execute f m s a none).1 rest
+
+/-- every part ends cleanly at a token boundary when it is run after the parts before it,
+and the run over the rest of the input is not cut short by the model -/
+def ChainOK (f m : Nat) : State → List (List UInt8) → List UInt8 → Prop
+  | _, [], _ => True
+  | s, a :: rest, b =>
+    (cleanRun f m s a).isSome = true ∧
+    (∃ F, Good (execute F m (execute f m s a none).1 (rest.flatten ++ b) none).2) ∧
+    ChainOK f m (execute f m s a none).1 rest b
+
+theorem split_many (f m : Nat) : ∀ (parts : List (List UInt8)) (s : State) (b : List UInt8),
+    ChainOK f m s parts b → ∀ F1 F2,
+      Good (execute F1 m s (parts.flatten ++ b) none).2 →
+      Good (execute F2 m (endState f m s parts) b none).2 →
+      SplitRel s.dsc (execute F1 m s (parts.flatten ++ b) none) (execute F2 m (endState f m s parts) b none) := by
+  intro parts
+  induction parts with
+  | nil =>
+    intro s b _ F1 F2 g1 g2
+    simp only [List.flatten_nil, List.nil_append] at g1 ⊢
+    unfold endState at g2 ⊢
+    have e1 := InterpFuel.execute_fuel_mono (f := F1) (f' := F1 + F2) (by omega) m s b none g1.1
+    have e2 := InterpFuel.execute_fuel_mono (f := F2) (f' := F1 + F2) (by omega) m s b none g2.1
+    rw [← e1, e2]
+    refine ⟨0, [], ?_⟩
+    rw [ext_nil]
+    by_cases hok : (execute F2 m s b none).2 = .ok
+    · rw [if_pos hok]
+    · rw [if_neg hok, ← execute_dsc_err F2 m s b hok]
+  | cons a rest ih =>
+    intro s b hch F1 F2 g1 g2
+    obtain ⟨hc, ⟨F, gF⟩, hrest⟩ := hch
+    have e : (a :: rest).flatten ++ b = a ++ (rest.flatten ++ b) := by simp
+    rw [e] at g1 ⊢
+    unfold endState at g2 ⊢
+    obtain ⟨_, _, h2⟩ := split_two hc
+    have r1 : SplitRel s.dsc (execute F1 m s (a ++ (rest.flatten ++ b)) none)
+        (execute F m (execute f m s a none).1 (rest.flatten ++ b) none) :=
+      ⟨_, _, h2 (rest.flatten ++ b) F1 F g1 gF⟩
+    exact r1.trans (ih (execute f m s a none).1 b hrest F F2 gF g2)
+
 end PsVerif.Proofs.SplitExec
